@@ -353,6 +353,8 @@ def _trailer(chk, repo, L):
     k = None
     if first.args and isinstance(first.args[0], ast.Constant) and isinstance(first.args[0].value, int):
         k = first.args[0].value
+    if k is None and first.args:
+        raise AnalysisError(f"{where}: the size of the header read ({short(first)}) is not a literal; not decided")
     chk.require(
         k == 720, "C05-F5", where,
         "header read is f.read(720): image data starts at byte 720 of the trailer",
